@@ -312,6 +312,7 @@ class Ctx:
         self.tier = tier
         self.seed = seed
         self.replay = replay
+        self.replay_target = None
         self.rng = random.Random(seed)
         self.t0 = time.time()
         self.evaluations = 0
@@ -476,4 +477,15 @@ class Ctx:
             json.dump(ev, f, indent=1, default=repr)
         print("%s %s: %d evaluations, %d distinct non-trivial, %d/%d obligations, %d violation line(s), %d known finding(s), %.1fs" % (
             self.prop, self.tier, self.evaluations, len(self.nontrivial), discharged, obligations, printed, len(self.known_hits), time.time() - self.t0))
+        if self.replay_target is not None:
+            tgt = self.replay_target
+            import re as _re
+            canon = lambda x: _re.sub(r"memory:0x[0-9a-f]+", "memory:0x", _re.sub(r"/tmp/(c\d\d\w?_)\w+", r"/tmp/\1X", json.dumps(x, sort_keys=True, default=repr)))  # noqa
+            if tgt.get("kind") == "obligation":
+                names = {b.get("name") for b in tgt.get("no_longer_checks", [])}
+                again = bool(names & {b["name"] for b in self.broken})
+            else:
+                again = any(canon(v.get("case")) == canon(tgt.get("case")) for v in self.violations)
+            print("REPLAY property=%s file=%s reproduced=%s" % (self.prop, self.replay, "yes" if again else "no"))
+            return 1 if again else 0
         return 1 if printed else 0
